@@ -121,6 +121,34 @@ fn main() {
         for (t, d) in shm.records() { println!("{} {}", t as char, String::from_utf8_lossy(&d).chars().take(300).collect::<String>()); }
         return;
     }
+    if args[1] == "devrun" {
+        // devrun <cfg> <op>...   ops: p<k> d<k> f c r<i> q  (put/delete key index, flush, compact all, reopen cfg i, quiesce)
+        use world::*;
+        let cfgs: Vec<Cfg> = args[2].split(',').map(|c| Cfg::parse(c).expect("cfg")).collect();
+        let ops: Vec<String> = args[3..].to_vec();
+        let s = sched::Sched::new(sched::Mode::Fixed);
+        run::run_once(&s, move || {
+            let mut w = World::new(cfgs.clone(), props_seq::k4(), true, Checks::all());
+            w.open().unwrap();
+            for o in ops.iter() {
+                let n = || o[1..].parse::<u8>().unwrap_or(0);
+                let op = match &o[..1] {
+                    "p" => Op::Put(n(), 0),
+                    "d" => Op::Del(n()),
+                    "f" => Op::Flush,
+                    "c" => Op::Compact(None, None),
+                    "r" => Op::Reopen(n()),
+                    _ => Op::Quiesce,
+                };
+                let r = w.apply(&op);
+                let chk = w.check_all();
+                let lay: Vec<String> = w.db().verif_layout().iter().enumerate().filter(|(_, l)| !l.is_empty()).map(|(i, l)| format!("L{}:{:?}", i, l.iter().map(|f| f.number).collect::<Vec<_>>())).collect();
+                println!("{:<4} -> {:?} {:?} | {}", o, r.err().map(|v| v.clause), chk.err().map(|v| format!("{} {}", v.clause, v.detail)), lay.join(" "));
+            }
+            w.close();
+        });
+        return;
+    }
     if args[1] == "devseek" {
         use world::*;
         let s = sched::Sched::new(sched::Mode::Fixed);
